@@ -420,6 +420,7 @@ type c18Spec struct {
 	norm    string
 	data    []byte
 	trig    string // 4 chars 0/1: plus, paramNoType, b64Item, textPlainPrefix
+	valid   bool
 }
 
 var c18TrigIDs = []string{"K-C18-1", "K-C18-2", "K-C18-3", "K-C18-4"}
@@ -455,10 +456,10 @@ func c18EvalURIs(c *Ctx, st *h.Stage, uris [][]byte) error {
 	for i, cs := range cases {
 		b, ok, msg := h.DecodeReply(rep[2*i+1])
 		f := h.DecodeListReply(b)
-		if !ok || len(f) != 5 {
+		if !ok || len(f) != 6 {
 			return fmt.Errorf("spec.c18.rfc: bad reply %q %s", rep[2*i+1], msg)
 		}
-		specs[i] = c18Spec{ok: string(f[0]) == "1", mt: string(f[1]), norm: string(f[2]), data: f[3], trig: string(f[4])}
+		specs[i] = c18Spec{ok: string(f[0]) == "1", mt: string(f[1]), norm: string(f[2]), data: f[3], trig: string(f[4]), valid: string(f[5]) == "1"}
 		d := specs[i].data
 		if cs.call.ok {
 			d = cs.call.out
@@ -508,7 +509,7 @@ func c18EvalURIs(c *Ctx, st *h.Stage, uris [][]byte) error {
 			}
 		}
 		// validation of the Lean specification reader against the independent Go reader
-		if sp.ok != gr.ok || (sp.ok && (sp.mt != gr.mt || !bytes.Equal(sp.data, gr.data) || sp.norm != c18Norm(gr.mt))) {
+		if sp.ok != gr.ok || (sp.ok && (sp.mt != gr.mt || !bytes.Equal(sp.data, gr.data) || sp.norm != c18Norm(gr.mt) || sp.valid != c18ValidlyEncoded(gr))) {
 			c.R.Add(h.Finding{Stage: st.Name, Kind: "diff", What: "Lean rfcParse/mtNorm differs from the independent Go reading of RFC 2397", Input: h.Q(cs.u), Hex: h.Hex(cs.u),
 				Impl: fmt.Sprintf("go ok=%v mt=%q norm=%q data=%s", gr.ok, gr.mt, c18Norm(gr.mt), h.Q(gr.data)), Model: fmt.Sprintf("lean ok=%v mt=%q norm=%q data=%s", sp.ok, sp.mt, sp.norm, h.Q(sp.data))})
 		}
